@@ -3,8 +3,8 @@
 # 1. fresh worktree of /repo HEAD, 2. demo without change (must pass), 3. apply, demo with change (must fail),
 # 4. related tests with change (must pass), 5. ./check Cxx against the changed worktree (should report a VIOLATION)
 d="$1"; pid="$2"; shift 2
-wt=/tmp/seed/confirm_$pid
-LOCK="flock /tmp/seed/pytest.lock"; [ -n "$NOLOCK" ] && LOCK=""
+mkdir -p /tmp/seedc; wt=/tmp/seedc/confirm_$pid
+LOCK="/verif/tools/nsrun.sh"   # tests run in a private network namespace
 rm -rf "$wt"; git -C /repo worktree prune; git -C /repo worktree add -q --detach "$wt" HEAD || exit 9
 demo=$(ls "$d"/demo.py "$d"/test_demo.py 2>/dev/null | head -1)
 run_demo() { (cd "$wt" && PYTHONPATH="$wt/src:$wt" timeout 300 /venv/bin/python "$demo" > "$d/demo_$1.log" 2>&1; echo $?); }
